@@ -52,13 +52,13 @@ def vdriver(name, gen_args, call, expect, kinds=VK):
 
 
 none = lambda k, vals, run: [()]
-vdriver("is_na", none, lambda v: v.is_na(), lambda v: [is_missing(x) for x in v], kinds=VK + ("fix", "td"))
-vdriver("drop_na", none, lambda v: v.drop_na(), lambda v: [x for x in v if not is_missing(x)], kinds=VK + ("fix", "td"))
+vdriver("is_na", none, lambda v: v.is_na(), lambda v: [is_missing(x) for x in v], kinds=VK + ("fix", "td", "f4", "u8"))
+vdriver("drop_na", none, lambda v: v.drop_na(), lambda v: [x for x in v if not is_missing(x)], kinds=VK + ("fix", "td", "f4", "u8"))
 vdriver("replace_na", lambda k, vals, run: [(enc([POOLS[k][0]])[0],)], lambda v, r: v.replace_na(dec([r])[0]),
         lambda v, r: [dec([r])[0] if is_missing(x) else x for x in v], kinds=("int", "float", "str", "date"))
 vdriver("head", lambda k, vals, run: [(n,) for n in (0, 1, 2, 5)], lambda v, n: v.head(n), lambda v, n: list(v)[:n])
 vdriver("tail", lambda k, vals, run: [(n,) for n in (0, 1, 2, 5)], lambda v, n: v.tail(n), lambda v, n: list(v)[len(v) - min(n, len(v)):])
-vdriver("tolist", none, lambda v: v.tolist(), lambda v: [None if is_missing(x) else (x.item() if hasattr(x, "item") else x) for x in v])
+vdriver("tolist", none, lambda v: v.tolist(), lambda v: [None if is_missing(x) else (x.item() if hasattr(x, "item") else x) for x in v], kinds=VK + ("f4", "td"))
 vdriver("concat", lambda k, vals, run: [(vals,), ([],)], lambda v, o: v.concat(mkcol(v_kind(v), dec(o))), lambda v, o: list(v) + list(mkcol(v_kind(v), dec(o))),
         kinds=("int", "float", "str"))
 vdriver("as_float", none, lambda v: v.as_float(), lambda v: [float(x) for x in v], kinds=("int", "bool"))
@@ -295,6 +295,8 @@ def _check_construction(run, tags, dtype):
             run.check(inp, v.is_string() or v.dtype.kind == "U", expected="string", got=str(v.dtype), clause="strings take '' as missing")
         elif all(type(x) is type(nonmiss[0]) for x in nonmiss) and dateish(nonmiss[0]):
             run.check(inp, v.is_datetime(), expected="datetime64", got=str(v.dtype), clause="dates take NaT as missing")
+        elif all(isinstance(x, np.timedelta64) for x in nonmiss):
+            run.check(inp, v.is_timedelta(), expected="timedelta64", got=str(v.dtype), clause="NumPy durations take NaT as missing (they do not widen to float)")
     try:
         w = Vector(out, v.dtype)
         ok = bool(w.equal(v)) and bool(v.equal(w))
